@@ -230,7 +230,7 @@ Lemma sv_loop_char forbid fs db : vnodup fs -> forall st,
   List.length (sv_flags st) = List.length fs ->
   sv_remaining st = count_false (sv_flags st) ->
   if existsb (sv_bad forbid fs) db
-  then exists e, sv_loop forbid fs st db = Err e
+  then exists e, sv_loop forbid fs st db = Err e /\ e <> EPanic
   else sv_loop forbid fs st db =
        Ok {| sv_flags := marks fs (sv_flags st) (map fst db);
              sv_remaining := count_false (marks fs (sv_flags st) (map fst db));
@@ -263,11 +263,11 @@ Proof.
            cbn [sv_flags sv_remaining sv_skipped sv_out] in IH.
            specialize (IH ltac:(now apply vmark_length) eq_refl).
            cbn [map fst marks emit]. rewrite E, Ec. exact IH.
-      * cbn [orb]. eexists. reflexivity.
+      * cbn [orb]. eexists. split; [reflexivity|discriminate].
     + apply (vmatch_none n fs (sv_flags st) true Hl) in M. rewrite M.
       rewrite andb_true_r, orb_false_r.
       destruct forbid.
-      * cbn [orb]. eexists. reflexivity.
+      * cbn [orb]. eexists. split; [reflexivity|discriminate].
       * cbn [orb].
         assert (Hm : vmark n fs (sv_flags st) true = sv_flags st).
         { apply vmark_nobound; [assumption|]. now apply vfind_none. }
@@ -455,7 +455,7 @@ Proof.
   destruct (existsb (fun f => vf_required f && negb (mem (vf_name f) (map fst db))) fs) eqn:Miss.
   - (* a required field is missing: rejected either in the loop or by the final check *)
     destruct ((vd_forbid d && existsb (unbound fs) db) || existsb (ser_fails fs) db) eqn:Bad.
-    + destruct L as [e ->]. reflexivity.
+    + destruct L as [e [-> _]]. reflexivity.
     + rewrite L. cbn [sv_remaining sv_flags sv_out sv_skipped].
       rewrite marks_spec by (cbn; apply map_length). cbn [sv_flags sv_out sv_skipped st0].
       pose proof (sv_first_missing_spec fs (map fst db) (nonskipped_all fs0)) as FM.
@@ -467,9 +467,9 @@ Proof.
         { apply sv_first_missing_all_true, count_false_0. lia. }
         apply FM in SM. congruence.
   - destruct (vd_forbid d && existsb (unbound fs) db) eqn:B1.
-    + cbn [orb] in L. destruct L as [e ->]. reflexivity.
+    + cbn [orb] in L. destruct L as [e [-> _]]. reflexivity.
     + cbn [orb] in L. destruct (existsb (ser_fails fs) db) eqn:B2.
-      * destruct L as [e ->]. reflexivity.
+      * destruct L as [e [-> _]]. reflexivity.
       * rewrite L. cbn [sv_remaining sv_flags sv_out sv_skipped].
         rewrite marks_spec by (cbn; apply map_length). cbn [sv_flags sv_out sv_skipped st0].
         pose proof (sv_first_missing_spec fs (map fst db) (nonskipped_all fs0)) as FM.
@@ -3328,4 +3328,146 @@ Proof.
   { rewrite spec_items_udt. clear. revert db cells. induction (List.length g) as [|k IH]; intros db cells; [reflexivity|].
     destruct db as [|c db]; [reflexivity|]. destruct cells as [|v cells]; cbn [udt_items firstn]; f_equal; apply IH. }
   rewrite E. now rewrite (map_ext _ _ (fun f => doc_field_value_eq f (spec_items (firstn (List.length g) db) cells))).
+Qed.
+
+
+(* ------------------------------------------------------------ by-name SerializeValue never panics *)
+Theorem ser_value_by_name_nopanic d db : vnodup (vd_fields d) -> gen_ser_value_by_name d db <> Err EPanic.
+Proof.
+  intros Hnd0. unfold gen_ser_value_by_name. cbv zeta.
+  set (fs := nonskipped (vd_fields d)).
+  assert (Hnd : vnodup fs) by now apply nonskipped_vnodup.
+  set (st0 := {| sv_flags := map (fun _ => false) fs; sv_remaining := List.length fs;
+                 sv_skipped := 0%nat; sv_out := [] |}).
+  assert (Hl : List.length (sv_flags st0) = List.length fs) by (cbn; apply map_length).
+  assert (Hr : sv_remaining st0 = count_false (sv_flags st0)).
+  { cbn. unfold count_false. clear. induction fs; simpl; congruence. }
+  pose proof (sv_loop_char (vd_forbid d) fs db Hnd st0 Hl Hr) as L.
+  destruct (existsb (sv_bad (vd_forbid d) fs) db).
+  - destruct L as [e [-> Ne]]. congruence.
+  - rewrite L. cbn [sv_remaining sv_flags sv_out]. destruct (0 <? _)%nat; [|discriminate].
+    destruct (sv_first_missing fs _); discriminate.
+Qed.
+
+(* ------------------------------------------------------------ enforce_order + allow_missing: the documented
+   (strict) table and the finding *)
+Theorem ser_value_ordered_strict_doc d db : vd_snc d = false -> vnodup (vd_fields d) ->
+  ordered_am_drops d db = false ->
+  outcome_of (gen_ser_value_ordered d db) = doc_ser_value_ordered_strict d db.
+Proof. intros Hs Hnd K. unfold doc_ser_value_ordered_strict. rewrite K. now apply ser_value_ordered_am_doc. Qed.
+
+Theorem typeck_value_ordered_strict_doc d db : vd_snc d = false -> vnodup (vd_fields d) ->
+  ordered_am_drops d db = false ->
+  (gen_typeck_value_ordered d db = Ok tt <-> doc_typeck_value_ordered_strict d db = true).
+Proof.
+  intros Hs Hnd K. unfold doc_typeck_value_ordered_strict. rewrite K. cbn [negb andb].
+  now apply typeck_value_ordered_am_doc.
+Qed.
+
+Theorem deser_value_ordered_strict_doc d db cells : vd_snc d = false -> vnodup (vd_fields d) ->
+  ordered_am_drops d db = false -> doc_typeck_value_ordered_strict d db = true ->
+  outcome_of (gen_deser_value_ordered d db cells) = doc_deser_value_ordered_strict d db cells /\
+  gen_deser_value_ordered d db cells <> Err EPanic.
+Proof.
+  intros Hs Hnd K T. unfold doc_typeck_value_ordered_strict, doc_deser_value_ordered_strict in *.
+  rewrite K in *. cbn [negb andb] in T. now apply deser_value_ordered_am_doc.
+Qed.
+
+(* the witness: struct { #[allow_missing] a: i32 = -1, b: i32 = 7 }, enforce_order; UDT (b int, a int) *)
+Definition ordered_am_witness : vdesc :=
+  {| vd_ordered := true; vd_forbid := false; vd_snc := false;
+     vd_fields := [ {| vf_ident := "a"; vf_rename := None; vf_skip := false; vf_am := true; vf_dwn := false;
+                       vf_ty := RInt; vf_val := Some [255;255;255;255] |};
+                    {| vf_ident := "b"; vf_rename := None; vf_skip := false; vf_am := false; vf_dwn := false;
+                       vf_ty := RInt; vf_val := Some [0;0;0;7] |} ] |}.
+
+Theorem ordered_precise_refuted : exists d db cells,
+  vd_ordered d = true /\ vd_snc d = false /\ vdesc_valid d = true /\ vvals_ok d = true /\
+  Permutation (map fst db) (map vf_name (nonskipped (vd_fields d))) /\
+  map fst db <> map vf_name (nonskipped (vd_fields d)) /\
+  ordered_am_drops d db = true /\
+  gen_typeck_value_ordered d db = Ok tt /\ doc_typeck_value_ordered_strict d db = false /\
+  gen_ser_value_ordered d db = Ok cells /\ doc_ser_value_ordered_strict d db = Reject /\
+  gen_deser_value_ordered d db cells = Ok [Some [0;0;0;0]; Some [0;0;0;7]].
+Proof.
+  exists ordered_am_witness, [("b", DInt); ("a", DInt)]%string, [Some [0;0;0;7]].
+  repeat split; try (vm_compute; reflexivity).
+  - cbn. apply perm_swap.
+  - cbn. discriminate.
+Qed.
+
+(* ------------------------------------------------------------ enforce_order, names checked: precise round trip *)
+Definition ordered_back (used : list vfield) (f : vfield) : cell :=
+  if vf_skip f then default_cell (vf_ty f)
+  else if mem (vf_name f) (map vf_name used) then vf_val f else default_cell (vf_ty f).
+
+Lemma db_cell_combine_used used : NoDup (map vf_name used) -> forall p f,
+  map fst p = map vf_name used -> In f used ->
+  db_cell (vf_name f) (combine p (map vf_val used)) = Some (vf_val f).
+Proof.
+  induction used as [|g used IH]; intros HN p f E Hin; [contradiction|].
+  destruct p as [|[n t] p]; [discriminate|]. cbn [map fst] in E. injection E as En E. subst n.
+  cbn [map combine db_cell]. cbn [map] in HN. inversion HN as [|? ? Hnot HN']; subst.
+  destruct Hin as [->|Hin]; [now rewrite String.eqb_refl|].
+  destruct (String.eqb (vf_name g) (vf_name f)) eqn:Eq; [|now apply IH].
+  exfalso. apply String.eqb_eq in Eq. apply Hnot. rewrite Eq. now apply in_map.
+Qed.
+
+Theorem roundtrip_value_ordered_precise d db cells used : vd_snc d = false -> vnodup (vd_fields d) ->
+  vvals_ok d = true -> doc_ordered_used (nonskipped (vd_fields d)) db = Some used ->
+  gen_ser_value_ordered d db = Ok cells -> gen_typeck_value_ordered d db = Ok tt ->
+  gen_deser_value_ordered d db cells = Ok (map (ordered_back used) (vd_fields d)).
+Proof.
+  intros Hs Hnd Hv U S T.
+  pose proof (ser_value_ordered_am_doc d db Hs Hnd) as DS. rewrite S, doc_ser_value_ordered_am_eq, U in DS.
+  cbn [outcome_of] in DS.
+  apply (typeck_value_ordered_am_doc d db Hs Hnd) in T. pose proof T as T0.
+  destruct (deser_value_ordered_am_doc d db cells Hs Hnd T) as [DD _].
+  unfold doc_deser_value_ordered_am in DD. rewrite T0, U in DD. apply outcome_accept. rewrite DD. clear DD.
+  rewrite (doc_ordered_used_gused _ _ Hnd) in U.
+  destruct (gused_sound _ _ _ U) as (Sub & _ & _).
+  destruct (names_prefix (map vf_name used) db) as [[p rest]|] eqn:N; [|discriminate DS].
+  destruct (vd_forbid d && negb (is_nil rest)); [discriminate DS|].
+  destruct (all_some (map ser_pair (combine used p))) as [cs|] eqn:AS; [|discriminate DS]. injection DS as ->.
+  destruct (names_prefix_spec _ _ _ _ N) as [Edb Ep]. destruct (names_prefix_some _ _ _ _ N) as [_ Lp].
+  rewrite map_length in Lp.
+  (* the cells are the values of the bound fields *)
+  assert (Ecs : cs = map vf_val used).
+  { clear -AS Lp. revert p cs AS Lp. induction used as [|g used IH]; intros [|c p] cs AS Lp; try discriminate.
+    - cbn in AS. now injection AS as <-.
+    - cbn [combine map all_some] in AS. unfold ser_pair at 1 in AS. cbn [fst snd] in AS.
+      destruct (ser_field (vf_ty g) (vf_val g) (snd c)) as [cl|] eqn:SF; [|discriminate].
+      destruct (all_some (map ser_pair (combine used p))) as [cs'|] eqn:AS'; [|discriminate]. injection AS as <-.
+      apply ser_field_some in SF. subst cl. cbn [map]. f_equal. apply (IH p); [assumption|cbn in Lp; congruence]. }
+  subst cs.
+  assert (Efirst : firstn (List.length used) db = p).
+  { rewrite Edb, <- Lp, firstn_app, Nat.sub_diag, firstn_all. cbn [firstn]. now rewrite app_nil_r. }
+  rewrite Efirst.
+  assert (Eit : spec_items p (map vf_val used) = combine p (map vf_val used)).
+  { unfold spec_items. rewrite map_length, Lp, Nat.sub_diag. cbn [repeat]. now rewrite app_nil_r. }
+  rewrite Eit.
+  assert (NDu : NoDup (map vf_name used)).
+  { clear -Sub Hnd. unfold vnodup in Hnd. revert Sub Hnd. generalize (nonskipped (vd_fields d)) as fs.
+    intros fs Sub. induction Sub as [|x l m S IH|x l m S IH]; intros HN; [constructor| |].
+    - cbn [map] in *. inversion HN as [|? ? Hnot HN']; subst. constructor; [|now apply IH].
+      intros Hin. apply Hnot. apply in_map_iff in Hin as (y & Ey & Hy). rewrite <- Ey. apply in_map.
+      now apply (subseq_In _ _ _ S).
+    - cbn [map] in HN. inversion HN; subst. now apply IH. }
+  rewrite (all_some_map _ (ordered_back used)); [reflexivity|].
+  intros f Hf. unfold doc_field_value, ordered_back. destruct (vf_skip f) eqn:Sf; [reflexivity|].
+  destruct (mem (vf_name f) (map vf_name used)) eqn:M.
+  - apply mem_In in M. apply in_map_iff in M as (g & Eg & Hg).
+    assert (g = f).
+    { pose proof (subseq_In _ _ _ Sub Hg) as Hgf. unfold nonskipped in Hgf. apply filter_In in Hgf as [Hgf Sg].
+      apply negb_true_iff in Sg. pose proof (vfind_self _ _ Hnd Hgf Sg) as F1.
+      pose proof (vfind_self _ _ Hnd Hf Sf) as F2. rewrite Eg in F1. congruence. }
+    subst g. erewrite db_cell_combine_used by eassumption. rewrite doc_null_rule_v.
+    apply deser_back. unfold vvals_ok in Hv. rewrite forallb_forall in Hv. now apply Hv.
+  - assert (X : db_cell (vf_name f) (combine p (map vf_val used)) = None).
+    { apply db_cell_none. apply not_true_is_false. intros M'. apply mem_In in M'.
+      assert (E : map fst (map fst (combine p (map vf_val used))) = map fst p).
+      { clear -Lp. revert p Lp. induction used as [|g used IH]; intros [|c p] Lp; try discriminate; [reflexivity|].
+        cbn [map combine fst]. f_equal. apply IH. cbn in Lp. congruence. }
+      rewrite E, Ep in M'. apply mem_In in M'. congruence. }
+    now rewrite X.
 Qed.
